@@ -315,6 +315,8 @@ def r4(ctx):
 
 
 def r5(ctx):
+    from .c03 import chld_always_reaps
+    chld_always_reaps(ctx, "C14.R5")       # reexec_pid is only ever reset by the reaper, which only SIGCHLD runs
     repo = ctx.repo
     f = ctx.fn(repo.func(ARB + ".start"))
     g = f.cfg
